@@ -272,6 +272,10 @@ async fn scenario(sim: Arc<Sim>, unit: Value, which: &'static str) -> Obs {
     tokio::time::sleep(ms(IDLE_MS + 1_000)).await;
     check_streams(&sim, &nets, &ids, &mut subs, ops.len(), c04, &mut o);
     check_mutual(&sim, &nets, &ids, ops.len(), &mut o).await;
+    if c04 {
+        let (bad, _calls) = check_registry_traces(&sim);
+        o.violations.extend(bad);
+    }
     let listing: Vec<String> = nets.iter().map(|n| format!("{}", n.peers().len())).collect();
     o.shape.push_str(&format!("|{}", listing.join("")));
     o
